@@ -13,15 +13,24 @@ Theorem c18_frame_direct :
   forall j, 0 <= j -> j <> dbi -> get_db s' j = get_db s j.
 Proof. exact normal_command_frame. Qed.
 
-(** The same for a whole EXEC: all queued commands run against the one database that
-    was selected when EXEC arrived (a queued SELECT cannot redirect them: known class
-    select-in-multi), none of them reaches another database. *)
+(** The same for a whole EXEC: the queued commands run against the database that was
+    selected when EXEC arrived, none of them reaches another database - until a queued SELECT,
+    which (1ecc022) takes effect for the connection and for the commands queued after it,
+    exactly as when sent directly ([c18_exec_select]). *)
 Theorem c18_frame_exec :
-  forall now dbi q s acc reps s',
-  exec_queue now s dbi q acc = (reps, s') -> 0 <= dbi ->
-  forallb (fun parts => negb (beq (cmd_name parts) (bs "FLUSHALL"))) q = true ->
+  forall now c dbi q s acc reps s',
+  exec_queue now s c dbi q acc = (reps, s') -> 0 <= dbi ->
+  forallb (fun parts => negb (beq (cmd_name parts) (bs "FLUSHALL")) && negb (beq (queued_name parts) (bs "SELECT"))) q = true ->
   forall j, 0 <= j -> j <> dbi -> get_db s' j = get_db s j.
 Proof. exact exec_queue_frame. Qed.
+Theorem c18_exec_select :
+  forall now c dbi parts q s acc,
+  beq (queued_name parts) (bs "SELECT") = true ->
+  exec_queue now s c dbi (parts :: q) acc =
+  match normal_command now s c dbi parts None with
+  | (rep, s1) => exec_queue now s1 c (match zlookup c (s_conns s1) with Some cn => c_db cn | None => dbi end) q (rep :: acc)
+  end.
+Proof. exact exec_queue_select. Qed.
 
 (** SELECT of an index outside 0..15, or of a non-number, is refused and keeps the
     selection; a valid index changes the issuing connection's selection only (like every
@@ -30,7 +39,7 @@ Theorem c18_select :
   forall now s c dbi a oracle cn,
   zlookup c (s_conns s) = Some cn ->
   let s1 := lazy_expire now s dbi (bs "SELECT") [FBulk (bs "SELECT"); FBulk a] in
-  let s0 := if mem_name (bs "SELECT") write_commands then log_aof s1 [FBulk (bs "SELECT"); FBulk a] else s1 in
+  let s0 := if mem_name (bs "SELECT") write_commands then log_aof_in s1 dbi [FBulk (bs "SELECT"); FBulk a] else s1 in
   normal_command now s c dbi [FBulk (bs "SELECT"); FBulk a] oracle =
     match parse_usize a with
     | Some n => if 16 <=? n then (r_err, s0)
@@ -48,12 +57,13 @@ Theorem c18_selection_per_connection :
   forall c', c' <> c -> c' <> 0 -> zlookup c' (s_conns s') = zlookup c' (s_conns s).
 Proof. exact normal_command_conns. Qed.
 
-(** known finding select-in-multi: SELECT queued inside MULTI answers OK at EXEC but is a
-    no-op, the following SET lands in the database selected before *)
-Example c18_select_in_multi_refuted :
+(** the former finding select-in-multi (1ecc022): a SELECT queued inside MULTI takes effect at EXEC;
+    the following SET lands in the database it selected and the connection stays there *)
+Example c18_select_in_multi_repaired :
   let s0 := connect (init_server None) 1 in
   let q := [[FBulk (bs "SELECT"); FBulk (bs "1")]; [FBulk (bs "SET"); FBulk (bs "k"); FBulk (bs "v")]] in
-  match exec_queue 0 s0 0 q [] with
-  | (reps, s') => reps = [r_ok; r_ok] /\ d_data (get_db s' 1) = [] /\ d_data (get_db s' 0) <> []
+  match exec_queue 0 s0 1 0 q [] with
+  | (reps, s') => reps = [r_ok; r_ok] /\ d_data (get_db s' 0) = [] /\ d_data (get_db s' 1) <> [] /\
+                  option_map c_db (zlookup 1 (s_conns s')) = Some 1
   end.
 Proof. vm_compute. repeat split; discriminate. Qed.
